@@ -220,7 +220,9 @@ class XMLDocParser:
             function_key = f"{cpp_class}.{cpp_method}({','.join(method_args_names) if method_args_names else ''})"
             if function_key in self._memory:
                 self._memory[function_key] += 1
-                documenting_index = self._memory[function_key]
+                # More overloads wrapped than documented: reuse the last one.
+                documenting_index = min(self._memory[function_key],
+                                        len(member_defs) - 1)
             else:
                 self._memory[function_key] = 0
 
